@@ -18,6 +18,9 @@ TYPES = ["f64", "f32", "bigrational", "bigint"]
 FEATURES = ["autoconvert", "f32", "f64", "bigint", "bigrational", "si", "std"]
 
 
+TBN = {"si": "kelvin", "mk": "millikelvin", "kk": "kilokelvin"}
+
+
 def coef_table(t, types):
     """Base-unit coefficients as the model evaluates them (validated against coefficient() by C03)."""
     lines, keys = [], []
@@ -306,7 +309,61 @@ def run(ctx):
         cid, got, want = disagreements[0]
         ctx.violation(replay_case(cid, {"obligation": "bit-exact correspondence Model.Quantity.q_bin/q_muladd (extracted) vs the autoconvert operators",
                                         "count": len(disagreements)}), no_input=True)
+    # temperature point (+|-|+=|-=) interval and interval + point with the two operands in DIFFERENT temperature base units: the result, in the
+    # left operand's base unit, is t +/- (d re-expressed in that base unit) - exactly for BigRational, to a few ulps for f64
+    from . import c09 as C09
+    from . import convx as X
+    ht = Harness("c06t", C09.FEATURES, prelude=C09.prelude(["f64", "bigrational"]))
+    tcases, tmeta = [], {}
+    # the base units' coefficients as every storage type here holds them: the exact values of the f64 literals 1e-3 and 1e3
+    kb = {"si": Fraction(1), "mk": Fraction(1.0e-3), "kk": Fraction(1.0e3)}
+    for ty in ("f64", "bigrational"):
+        for (bl, br) in (("si", "mk"), ("mk", "kk"), ("kk", "si"), ("mk", "si")):
+            for pu, iu in (("kelvin", "kelvin"), ("degree_celsius", "degree_fahrenheit"), ("degree_fahrenheit", "kelvin")):
+                sl = ht.slot(C09.slot(pu, iu, bl, br, ty))
+                for (tv, dv) in (("300", "2.5"), ("-40", "72"), ("0.5", "-0.25"), ("1000", "1")):
+                    if ty == "f64":
+                        a_ = [FC.hexbits(C.f64_bits(float(tv)), "f64"), FC.hexbits(C.f64_bits(float(dv)), "f64")]
+                    else:
+                        a_ = [VG.val_text(ty, Fraction(tv)), VG.val_text(ty, Fraction(dv))]
+                    for op in ("add", "sub", "addas", "subas", "radd"):
+                        cid = f"x{len(tcases)}"
+                        tcases.append((cid, sl, [op] + a_))
+                        tmeta[cid] = (ty, bl, br, pu, iu, op, tv, dv, sl)
+    temp_bad = []
+    if not ht.build():
+        ctx.violation({"kind": "harness-build", "obligation": "the mixed-base temperature harness no longer compiles against /repo", "log": ht.build_log[-3000:]}, no_input=True)
+    else:
+        timpl = ht.run(tcases)
+        for cid, sl, a_ in tcases:
+            ty, bl, br, pu, iu, op, tv, dv, _ = tmeta[cid]
+            got = timpl.get(cid)
+            if got in (None, "PANIC", "BADOP"):
+                temp_bad.append((cid, f"harness answered {got}"))
+                continue
+            f_ = got.split(" ")
+            ts, ds, rs = X.parse_value(ty, f_[0]), X.parse_value(ty, f_[1]), X.parse_value(ty, f_[2])
+            if None in (ts, ds, rs):
+                continue
+            # radd: the interval is the LEFT operand (stored in bl), the point the right one (stored in br); the result is a point in bl
+            if op == "radd":
+                want = ts * kb[br] / kb[bl] + ds
+            else:
+                dl = ds * kb[br] / kb[bl]
+                want = ts + dl if "add" in op else ts - dl
+            tol = 0 if ty == "bigrational" else 8 * FC.ulp_of(max(abs(want), abs(ts), abs(ds * kb[br] / kb[bl]), Fraction(1, 10 ** 300)), ty)
+            if abs(rs - want) > tol:
+                temp_bad.append((cid, f"{pu} point ({TBN[bl] if op != 'radd' else TBN[br]} base) {op} {iu} interval: stored result {float(rs)!r}, "
+                                      f"expected {float(want)!r} in the left operand's base unit"))
+        for cid, why in temp_bad[:3]:
+            ty, bl, br, pu, iu, op, tv, dv, sl = tmeta[cid]
+            ctx.violation({"kind": "mixed-base temperature operator", "spec": "C06: point +/- interval between different temperature base units = the same operation after re-expressing the right operand",
+                           "storage": ty, "left_base": TBN[bl], "right_base": TBN[br], "op": op, "point": f"{tv} {pu}", "interval": f"{dv} {iu}", "detail": why,
+                           "implementation": timpl.get(cid),
+                           "harness": {"features": ht.features, "prelude": ht.prelude, "cases": [{"slot_body": ht.slots[sl], "args": next(a for c, s_, a in tcases if c == cid)}]}})
     cov = ctx.coverage
+    cov["temperature_mixed_base_cases"] = len(tcases)
+    cov["temperature_mixed_base_failures"] = len(temp_bad)
     cov["evaluations"] = len(cases)
     cov["distinct_nontrivial"] = len(distinct)
     cov["rule"] = ("case = (storage f64/f32/BigRational/BigInt) x quantity x ordered pair of base-unit sets {SI, cgs, km-g-h-mA-mK-kmol, ft-lb-min} x "
